@@ -217,9 +217,8 @@ def run(prog, chk):
                     rn_ = f.nodes[f.strip(s.rhs)]
                     if rn_["k"] == "ConditionalOperator" and len(rn_["c"]) == 3:
                         # `cell = key < node->key ? &node->left : &node->right`: each arm under its side of the condition
-                        ck_ = fin.key(f, rn_["c"][0])
-                        cases_.append((s, rn_["c"][1], [(ck_, True)]))
-                        cases_.append((s, rn_["c"][2], [(ck_, False)]))
+                        cases_.append((s, rn_["c"][1], [(rn_["c"][0], True)]))
+                        cases_.append((s, rn_["c"][2], [(rn_["c"][0], False)]))
                     else:
                         cases_.append((s, s.rhs, []))
                 for s, rhs_, extra_ in cases_:
@@ -228,14 +227,16 @@ def run(prog, chk):
                     if not m or q.no_casts(f.r(s.lhs)) not in ("item", "cell"):
                         continue
                     node, side = m.group(1), m.group(2)
-                    atoms = fin.dominating_atoms(f, f.node_pos(s.node))
-                    facts = [(fin.key(f, a[0]), a[1]) for a in atoms if a[0] != "case"] + extra_
-                    gt = ("(key > %s->key)" % node)
-                    lt = ("(key < %s->key)" % node)
+                    atoms = fin.dominating_atoms(f, f.node_pos(s.node), assume=tuple(extra_))
+                    facts = [(fin.key(f, a[0]), a[1]) for a in atoms if a[0] != "case"]
+                    cf = set(fin._canon(f, a[0], a[1]) for a in atoms if a[0] != "case")
+                    nk = "%s->key" % node
+                    gt_t, gt_f = (nk, "<", "key") in cf, ("key", "<=", nk) in cf        # key > node->key holds / fails
+                    lt_t, lt_f = ("key", "<", nk) in cf, (nk, "<=", "key") in cf        # key < node->key holds / fails
                     if side == "right":
-                        ok = (gt, True) in facts or (cls == "MultiMap" and (lt, False) in facts)
+                        ok = gt_t or (cls == "MultiMap" and lt_f)
                     else:
-                        ok = (lt, True) in facts or (cls == "MultiMap" and f.short == "find" and (gt, False) in facts)
+                        ok = lt_t or (cls == "MultiMap" and f.short == "find" and gt_f)
                     if ok:
                         chk.ok("C01.f", f, "%s: descent to %s->%s under the matching comparison" % (f.short, node, side), f.where(s.node), str([x for x in facts if "key" in x[0]])[:80], evals=len(atoms))
                     else:
@@ -245,6 +246,7 @@ def run(prog, chk):
     C.wrappers(prog, chk, "C01.w", TREE)
     subtree_start(prog, chk)
     double_rotation_table(prog, chk)
+    balance_bookkeeping(prog, chk)
     C.parent_pairing(prog, chk, "C01.h", TREE)
     from .. import containers
     containers.link_idiom(prog, chk, "C01.d1", TREE)
@@ -383,3 +385,136 @@ def double_rotation_table(prog, chk):
                             "tree degrades beyond the AVL height bound" % (f.short, side, bad[0], bad[1]), evals=3)
                 else:
                     chk.ok("C01.j", f, "%s: child slope -1/0/+1 -> rotation sequence as required" % f.short, where, "guard evaluation under 3 valuations", evals=3)
+
+
+def balance_bookkeeping(prog, chk):
+    """C01.k / C01.l - FIN: the two pieces the AVL argument rests on besides the rotations themselves.
+    k: updateHeightAndSlope() computes height = max(hl, hr) + 1 and slope = hl - hr (one consistent sign) from the children's heights, a
+       missing child counting 0 - evaluated for all combinations of missing / height 1..3 children.
+    l: rebal() rotates exactly when |slope| = 2, in the direction that lowers the heavy side, on the link that holds the node (parent's
+       left / right link or the root), and returns that link's new content; otherwise it returns the node untouched."""
+    chk.rule("C01.k", "FIN: updateHeightAndSlope() stores height = max(left, right) + 1 and slope = left - right (missing child = 0) for all "
+                      "16 combinations of absent / height 1..3 children", floor=2)
+    chk.rule("C01.l", "FIN: rebal() calls the shift that lowers the heavy side exactly for slope +-2, on the parent's link to the node (or the "
+                      "root), and returns that link; for |slope| <= 1 it returns the node and rotates nothing", floor=2)
+    for cls in TREE:
+        for tn, fs in sorted(C.class_insts(prog, cls).items()):
+            if not tn.startswith(cls + "<int"):
+                continue
+            sign = None
+            for f in [g for g in prog.functions.values() if g.short == "updateHeightAndSlope" and (g.cls or "").startswith(tn)]:
+                where = "%s:%s" % (f.file, f.line)
+                bad = None
+                signs = set()
+                n_ev = 0
+                for ln, lh in ((0, 0), (1, 1), (1, 2), (1, 3)):
+                    for rn, rh in ((0, 0), (1, 1), (1, 2), (1, 3)):
+                        val = {"this->left": ln, "this->right": rn, "this->slope": 99, "this->height": 99}
+                        if ln:
+                            val["this->left->height"] = lh
+                        if rn:
+                            val["this->right->height"] = rh
+                        _seen, end, fv = fin.walk_vals(f, f.entry, val)
+                        n_ev += 1
+                        L, R = (lh if ln else 0), (rh if rn else 0)
+                        if isinstance(end, str) and end.startswith("undetermined"):
+                            bad = ((L, R), "the computation depends on something else than the children's heights (%s)" % end)
+                            break
+                        h, sl = fv.get("this->height"), fv.get("this->slope")
+                        if h != max(L, R) + 1:
+                            bad = ((L, R), "height becomes %s, required %d" % (h, max(L, R) + 1))
+                            break
+                        if sl == L - R and L != R:
+                            signs.add(1)
+                        elif sl == R - L and L != R:
+                            signs.add(-1)
+                        elif sl != L - R:
+                            bad = ((L, R), "slope becomes %s, required %d (or %d throughout)" % (sl, L - R, R - L))
+                            break
+                    if bad:
+                        break
+                if not bad and len(signs) != 1:
+                    bad = (("*", "*"), "slope has no consistent sign")
+                if bad:
+                    chk.bad("C01.k", f, "height-slope-formula", where,
+                            "with child heights (left %s, right %s) %s: every balance decision above this node is then taken on wrong numbers" % (bad[0][0], bad[0][1], bad[1]), evals=n_ev)
+                else:
+                    sign = signs.pop()
+                    chk.ok("C01.k", f, "height = max + 1, slope = %s for 16 child configurations" % ("left - right" if sign > 0 else "right - left"), where, "expression evaluation", evals=n_ev)
+            if sign is None:
+                continue
+            for f in [g for g in fs if g.short == "rebal" and g.cls == tn]:
+                where = "%s:%s" % (f.file, f.line)
+                item = f.params[0]["n"]
+                defs = q.local_defs(f)
+
+                def select(node, val, pl):
+                    node = f.strip(node)
+                    n = f.nodes[node]
+                    for _ in range(6):
+                        if n["k"] == "UnaryOperator" and n.get("op") in ("&", "*") and n["c"]:
+                            node = f.strip(n["c"][0])      # the link handed over by address instead of by reference
+                            n = f.nodes[node]
+                            continue
+                        if n["k"] == "DeclRefExpr" and n["ref"].get("dk") == "local":
+                            ini = q.single_def(f, n["ref"]["id"], defs)
+                            # several rebal arms declare their own `cell`: take the declaration that reaches this use
+                            if ini is None:
+                                cands = [d_[2] for d_ in defs.get(n["ref"]["id"], []) if d_[0] == "decl" and d_[2] is not None]
+                                ini = cands[0] if len(cands) == 1 else None
+                            if ini is None:
+                                break
+                            node = f.strip(ini)
+                            n = f.nodes[node]
+                            continue
+                        if n["k"] == "ConditionalOperator":
+                            c = fin.eval_expr(f, n["c"][0], val)
+                            if c is None and re.search(r"->left == %s\b|\b%s == \w+->left" % (item, item), q.no_casts(f.r(n["c"][0]))):
+                                c = pl
+                            elif c is None and re.search(r"->right == %s\b|\b%s == \w+->right" % (item, item), q.no_casts(f.r(n["c"][0]))):
+                                c = None if pl is None else (not pl)
+                            if c is None:
+                                return None
+                            node = f.strip(n["c"][1] if c else n["c"][2])
+                            n = f.nodes[node]
+                            continue
+                        break
+                    return q.no_casts(q.xr(f, node, defs))
+                bad = None
+                n_ev = 0
+                for v in (-2, -1, 0, 1, 2):
+                    for p_, pl in ((0, None), (1, 1), (1, 0)):
+                        val = {item + "->slope": v, item + "->parent": p_}
+                        asm = lambda k, pl=pl: (pl if re.search(r"->left == %s\b" % item, k) else ((not pl) if pl is not None and re.search(r"->right == %s\b" % item, k) else None))
+                        seen, end, fv = fin.walk_vals(f, f.entry, val, assume=asm)
+                        n_ev += 1
+                        if isinstance(end, str):
+                            bad = (v, "the decision is not made by the node's slope and parent (%s)" % end)
+                            break
+                        shifts = [(f.nodes[e]["callee"].split("::")[-1], e) for e in seen if f.nodes[e]["k"] in ("CallExpr", "CXXMemberCallExpr") and re.search(r"::shift[lr]$", f.nodes[e].get("callee", "") or "")]
+                        want_link = "this->root" if not p_ else ("%s->parent->left" % item if pl else "%s->parent->right" % item)
+                        if abs(v) < 2:
+                            if shifts:
+                                bad = (v, "a balanced node is rotated (%s)" % shifts[0][0])
+                            elif q.no_casts(f.r(f.nodes[end]["c"][0])) != item:
+                                bad = (v, "returns `%s` instead of the node" % q.no_casts(f.r(f.nodes[end]["c"][0])))
+                        else:
+                            want = "shiftr" if sign * v > 0 else "shiftl"
+                            if [x for x, _e in shifts] != [want]:
+                                bad = (v, "calls %s, required %s" % ([x for x, _e in shifts] or "no shift", want))
+                            else:
+                                link = select(q.call_args(f, shifts[0][1])[0], fv, pl)
+                                ret = select(f.nodes[end]["c"][0], fv, pl)
+                                if link != want_link:
+                                    bad = (v, "rotates on `%s` but the node hangs on `%s` (parent %s)" % (link, want_link, "null" if not p_ else "left link" if pl else "right link"))
+                                elif ret != want_link:
+                                    bad = (v, "returns `%s` instead of the re-rooted link `%s`" % (ret, want_link))
+                        if bad:
+                            break
+                    if bad:
+                        break
+                if bad:
+                    chk.bad("C01.l", f, "rebal-decision:%+d" % bad[0], where,
+                            "rebal() with slope %+d %s: the subtree stays (or becomes) out of balance / the parent keeps pointing at the old subtree root" % (bad[0], bad[1]), evals=n_ev)
+                else:
+                    chk.ok("C01.l", f, "rebal: slope +-2 -> shift on the holding link, else untouched", where, "15 valuations (slope x parent link)", evals=n_ev)
